@@ -8,7 +8,9 @@ Oracle on the implementation: for generated modules, every location that exists 
   (sync)    the user of both operations, sync_properties, asked to copy one location of a module onto another location of
             the SAME file (find at the first, replace at the second, template on/off): the file afterwards parses and its
             tree equals the original with the second location's position masked - replaced once, no other node, the node the
-            value was read from included.  Only calls inside guard_C14 are judged (the classes outside it belong to C14).
+            value was read from included.  Calls inside guard_C14 are judged, and calls that C14 puts aside only because an
+            address falls in a C15 class (judged under that class; C14's other classes belong to C14).  A class that says
+            "nothing is replaced" (ONLY_KINDS) covers the refusal only: a silent change of some other node is a violation.
 Failures are classified by the executable Coq guard's complement (finding_class_C15 / rw_finding_class_C15,
 asked through the driver); class None means the point is inside the proved region: a violation."""
 import ast
@@ -57,6 +59,9 @@ def gen_points(rng, tier):
     for i in range(n_mod):
         if rng.random() < 0.1:
             src = rng.choice(SPECIAL)
+        elif rng.random() < 0.15:
+            # three classes deep, a nested scope repeating an EARLIER one (same class / member names)
+            src, _kind = fam_locate.deep_module(rng)
         else:
             # a third of the modules also carry imports (module level and class bodies) that mention pool names
             src = GM.gen_module(rng, depth=rng.choice([1, 2, 3, 3]), max_items=rng.choice([4, 6, 8]),
@@ -109,6 +114,18 @@ def find_holds(pt):
 
 
 def replace_holds(pt):
+    return replace_judge(pt)[:2]
+
+
+def replace_judge(pt):
+    """-> (holds, what, kind of failure)"""
+    ok, what = _replace_holds(pt)
+    kind = None if ok else ("nothing-replaced" if what.startswith("location exists") else
+                            "raised" if what.startswith("RewriteAtQuery raised") else "wrong-replacement")
+    return ok, what, kind
+
+
+def _replace_holds(pt):
     m = impl()
     tree = m.source_transformer.ast_parse(pt["src"])
     q = pt["q"]
@@ -152,8 +169,14 @@ def gen_sync_points(rng, tier):
     pts = []
     while len(pts) < n:
         r = rng.random()
+        deep = False
         if r < 0.3:
             src = rng.choice(SP.SP_INPUTS + SP.SP_OUTPUTS)
+        elif r < 0.55:
+            # a location three or more segments deep to replace at, in a module whose nested scopes repeat earlier ones;
+            # the value is read from a location at most two segments deep
+            src, _kind = fam_locate.deep_module(rng)
+            deep = True
         else:
             src = GM.gen_module(rng, depth=rng.choice([1, 2, 2, 3]), max_items=rng.choice([4, 6, 8]))
         tree = ast.parse(src)
@@ -161,6 +184,11 @@ def gen_sync_points(rng, tier):
         anns = [".".join(p) for p, nd in GM.all_locations(tree) if isinstance(nd, ast.AnnAssign)]
         for _ in range(3):
             pools = [(a, b) for a, b in ((args + anns, args), (anns or stmts, stmts)) if a and b]
+            if deep:
+                shallow = lambda l: [q for q in l if q.count(".") <= 1]  # noqa: E731
+                far = lambda l: [q for q in l if q.count(".") >= 2]  # noqa: E731
+                pools = [(a, b) for a, b in ((shallow(args + anns), far(args)), (shallow(anns or stmts), far(stmts))) if a and b] \
+                    or pools
             if not pools:
                 break
             ipool, opool = rng.choice(pools)
@@ -181,10 +209,37 @@ def sync_holds(pt):
     return ok, what
 
 
+def sync_judge(pt):
+    """-> (holds, what, kind of failure as prop_C14 names it)"""
+    import prop_C14
+    return prop_C14.impl_judge({"args": _sync_args(pt)})
+
+
 def impl_holds(pt):
     if pt["check"] == "sync":
         return sync_holds(pt)
     return find_holds(pt) if pt["check"] == "find" else replace_holds(pt)
+
+
+def impl_judge(pt):
+    if pt["check"] == "sync":
+        return sync_judge(pt)
+    if pt["check"] == "replace":
+        return replace_judge(pt)
+    return find_holds(pt) + (None,)
+
+
+# A recorded class stands for the failure it describes.  Two rewrite classes say that NOTHING is replaced (no visited node
+# carries the location; the location names a function): the call is refused - RewriteAtQuery leaves `replaced` unset,
+# sync_properties raises and writes nothing.  A failure of another kind at such a location (some node WAS replaced: not
+# the addressed one, or something besides it) is not what they describe: the property demands an error and no silent
+# change of another node, so it is a violation whatever class the location falls in.
+ONLY_KINDS = {
+    "rewrite-location-not-reached": {"nothing-replaced", "raised-nothing-written"},
+    "rewrite-function-not-replaceable": {"nothing-replaced", "raised-nothing-written"},
+}
+# C14's classes that say "the address falls in a C15 class": such a sync point is judged here under the C15 class
+C14_ADDRESS_CLASSES = {"output-address-not-hit": "rw", "input-address-misresolved": "find"}
 
 
 def check_case(case):
@@ -205,32 +260,52 @@ def oracle(rng, tier):
 
     import fam_syncprops
     pts = pts + gen_sync_points(rng, tier)
-    reqs, reqs2 = [], []
+    reqs, reqs2, reqs3 = [], [], []
     for p in pts:
         if p["check"] == "sync":
             w = fam_syncprops.wire_args(_sync_args(p))
             reqs.append(dumps([Sym("c14_class")] + w))
             reqs2.append(dumps([Sym("c14_holds")] + w))
+            # the C15 classes of the two addresses (replace at `op`, find at `ip`)
+            p["_x"] = len(reqs3)
+            reqs3.append(dumps([Sym("c15_rw_class"), [x.strip() for x in p["op"].split(".")], wire(p["src"])]))
+            reqs3.append(dumps([Sym("c15_class"), [x.strip() for x in p["ip"].split(".")], wire(p["src"])]))
             continue
         fn = "c15_class" if p["check"] == "find" else "c15_rw_class"
         reqs.append(dumps([Sym(fn), list(p["q"]), wire(p["src"])]))
         reqs2.append(dumps([Sym("c15_holds"), list(p["q"]), wire(p["src"])]))
-    outs = run_model(reqs + reqs2)
-    classes, mholds = outs[:len(pts)], outs[len(pts):]
+    outs = run_model(reqs + reqs2 + reqs3)
+    classes, mholds, extra = outs[:len(pts)], outs[len(pts):2 * len(pts)], outs[2 * len(pts):]
     failures, hist, seen, disagree = [], collections.Counter(), set(), []
     n_eval = 0
+    import prop_C14
     for p, c, mh in zip(pts, classes, mholds):
+        x = p.pop("_x", None)
         if c == "unsupported":
             hist["skipped-unsupported-module"] += 1
             continue
         if p["check"] == "sync" and c != "none":
-            # out of C14's domain, or in one of C14's finding classes (they are C14's to report): not judged here
-            hist["sync:outside-guard_C14"] += 1
-            continue
+            # out of C14's domain, or in one of C14's own finding classes (they are C14's to report): not judged here.
+            # Where C14's class only says that an address falls in a C15 class (a location the code refuses or gets
+            # wrong), the call is judged under that C15 class: refused means an error and an untouched file.
+            ce = loads(c) if c != "out-of-domain" else None
+            c14 = unhx(ce[1]) if isinstance(ce, list) and len(ce) == 2 else None
+            which = C14_ADDRESS_CLASSES.get(c14)
+            e15 = extra[x + (0 if which == "rw" else 1)] if which and x is not None else "unsupported"
+            e15 = loads(e15) if e15 not in ("unsupported", "none") else None
+            if not isinstance(e15, list):
+                hist["sync:outside-guard_C14"] += 1
+                continue
+            c = dumps([Sym("some"), Sym(e15[1])])
         ce = loads(c)
         cls = None if ce == "none" else unhx(ce[1])
-        ok, what = impl_holds(p)
+        ok, what, kind = impl_judge(p)
         n_eval += 1
+        if not ok and cls is not None:
+            if (cls in ONLY_KINDS and kind not in ONLY_KINDS[cls]) or (p["check"] == "sync" and kind in prop_C14.NEVER_ABSORBED):
+                hist["not-absorbed:%s:%s:%s" % (p["check"], cls, kind)] += 1
+                what += " [a failure of this kind is not what the recorded class %s describes]" % cls
+                cls = None
         hist["%s:%s:%s:%s" % (p["check"], p["kind"], "holds" if ok else "fails", cls or "in-guard")] += 1
         if cls is None and len(p["q"]) >= 1:
             seen.add((p["src"], tuple(p["q"]), p["check"]))
@@ -244,8 +319,11 @@ def oracle(rng, tier):
         "rule": "generated modules (depth <= 3, repeated names, functions before/after classes) x every existing location + "
                 "perturbed/random non-existing ones; find judged by object identity against gen_module.resolve; replace judged "
                 "by position + masked dump; sync: sync_properties from one location onto another of the same file (inside "
-                "guard_C14), judged by the masked dump of the file; modules with and without imports that mention pool "
-                "names; non-trivial = distinct (module, location, check) inside the proved region",
+                "guard_C14, and where the address falls in a C15 class under that class), judged by the masked dump of the "
+                "file; modules with and without imports that mention pool names; modules three classes deep in which a "
+                "nested scope repeats an EARLIER one (same class and member names), locations of three and more segments "
+                "replaced at through sync_properties: where the code refuses the location, an error and an untouched file "
+                "are demanded; non-trivial = distinct (module, location, check) inside the proved region",
         "failures": failures,
         "model_impl_property_disagreements": disagree,
         "histogram": dict(hist),
